@@ -96,6 +96,9 @@ type jmsg struct {
 	From *jtok  `json:"from,omitempty"`
 	To   *jtok  `json:"to,omitempty"`
 	B    string `json:"b,omitempty"` // ping other garbage
+	// Decl: the MsgType field written into the ProtocolMsg when it is not the type of the
+	// encoded body: ping other agg chan (registered types) or unknown
+	Decl string `json:"decl,omitempty"`
 	Tree int    `json:"tree,omitempty"`
 	Ver  int    `json:"ver,omitempty"`
 	TM   *jtm   `json:"tm,omitempty"`
@@ -595,6 +598,18 @@ func (w *world) message(m *jmsg) (network.Message, network.MessageTypeID) {
 		default:
 			pm.MsgSlice = []byte{1, 2, 3, 4, 5, 6, 7, 8, 9, 10, 11, 12, 13, 14, 15, 16, 17, 18, 19, 20}
 			pm.MsgType = network.MessageType(&Ping{})
+		}
+		switch m.Decl {
+		case "ping":
+			pm.MsgType = network.MessageType(&Ping{})
+		case "other":
+			pm.MsgType = network.MessageType(&Other{})
+		case "agg":
+			pm.MsgType = network.MessageType(&Agg{})
+		case "chan":
+			pm.MsgType = network.MessageType(&Chn{})
+		case "unknown":
+			pm.MsgType = network.MessageTypeID(hashUUID("msgtype", 1))
 		}
 		return pm, onet.ProtocolMsgID
 	case "reqtree":
@@ -1104,6 +1119,9 @@ func opTag(op jop, prior []jop, w *world) string {
 		if m.B == "garbage" {
 			f = append(f, "garbage")
 		}
+		if m.Decl != "" && m.Decl != m.B {
+			f = append(f, "decl-"+m.Decl+"-body-"+m.B)
+		}
 	case "resptree":
 		if m.TM == nil {
 			f = append(f, "tmnil")
@@ -1292,7 +1310,8 @@ func msgTerm(m *jmsg) string {
 		case "other", "agg", "chan":
 			b = "BOther"
 		}
-		return fmt.Sprintf("(MProto %s %s %s)", optTok(m.From), optTok(m.To), b)
+		decl := map[string]int{"": 0, "ping": 1, "other": 2, "agg": 3, "chan": 4, "unknown": 5}[m.Decl]
+		return fmt.Sprintf("(MProto %s %s %s %d)", optTok(m.From), optTok(m.To), b, decl)
 	case "reqtree":
 		return fmt.Sprintf("(MReqTree %d %d)", m.Tree, m.Ver)
 	case "resptree":
@@ -2081,6 +2100,10 @@ func (g *gen) envelope() jop {
 	switch g.rng.Intn(14) {
 	case 0, 1, 2, 3:
 		op.M = &jmsg{T: "proto", From: g.optToken(false), To: g.optToken(true), B: []string{"ping", "ping", "ping", "other", "garbage", "agg", "agg", "chan"}[g.rng.Intn(8)]}
+		if g.rng.Intn(4) == 0 {
+			// the declared message type is not the type of the encoded body
+			op.M.Decl = []string{"ping", "ping", "other", "agg", "chan", "unknown"}[g.rng.Intn(6)]
+		}
 	case 4, 5:
 		op.M = &jmsg{T: "reqtree", Tree: g.pick(0, 1, 1, 2, 3, 7), Ver: g.pick(0, 1, 1, 2)}
 	case 6, 7, 8:
@@ -2246,6 +2269,24 @@ func corpus() []interface{} {
 			recv(3, &jmsg{T: "reqtree", Tree: 1, Ver: 0}),
 			recv(3, &jmsg{T: "config"}),
 			recv(3, &jmsg{T: "roster", RO: &jro{}}))
+	}
+	// the declared message type differs from the encoded one: handler-, aggregate- and
+	// channel-registered types, on a running instance and on a new one
+	for _, netMode := range []bool{false, true} {
+		for _, mm := range [][2]string{{"ping", "other"}, {"ping", "agg"}, {"ping", "chan"}, {"agg", "ping"}, {"agg", "other"},
+			{"chan", "ping"}, {"chan", "other"}, {"other", "ping"}, {"unknown", "ping"}, {"ping", "garbage"}} {
+			for _, round := range []int{11, 24} {
+				if netMode && (round != 11 || (mm[1] != "ping" && mm[0] != "ping")) {
+					continue // the TCP sub-process mode takes a sample
+				}
+				k := legitTok(1, round)
+				f := *k
+				f.Nd = 1
+				hist("declared-type-"+mm[0]+"-encoded-"+mm[1], "midrun", netMode,
+					recv(3, &jmsg{T: "proto", From: &f, To: k, B: mm[1], Decl: mm[0]}),
+					recv(1, &jmsg{T: "proto", From: &f, To: k, B: mm[1], Decl: mm[0]}))
+			}
+		}
 	}
 	// a queued forged description whose roster arrives after the genuine tree
 	for _, netMode := range []bool{false, true} {
